@@ -214,6 +214,60 @@ def validate_const_slot(body, tb, slot_term, width, const_term):
                 if los and min(los) == 0 and max(his) == width - 1:
                     return True, "byte loop over 0..%d" % width
                 return False, "the validating loop compares bytes %s..=%s of %d" % (min(los) if los else "?", max(his) if his else "?", width)
+    # (c) whole-slot comparison `slot != CONST` / `slot == CONST` through PartialEq, mismatch -> Err
+    for sb in sorted(body.reachable()):
+        info = switch_info(body, sb)
+        if not info or info["kind"] != "bool":
+            continue
+        c = info["call"]
+        if c.decl in ("std::cmp::PartialEq::ne", "std::cmp::PartialEq::eq") and len(c.args) == 2:
+            a, b_ = render(tb.term(c.args[0])), render(tb.term(c.args[1]))
+            mism = info["true"] if c.decl.endswith("::ne") else info["false"]
+            if {a.lstrip("*"), b_.lstrip("*")} == {slot_term.lstrip("*"), const_term.lstrip("*")} and (reach_from(body, mism) & errs):
+                return True, "whole-slot comparison"
+    # (d) element-wise scan: slot.iter().zip(CONST.iter()).find/position/any(|(a, b)| a != b) -> Err when one is found
+    #     (or .all(|(a, b)| a == b) -> Err when it does not hold)
+    facts = getattr(body, "facts", None)
+    for c in body.calls():
+        m = re.search(r"Iterator::(find|position|any|all)$", c.decl)
+        if not m or len(c.args) < 2 or facts is None:
+            continue
+        recv = render(tb.term(c.args[0]))
+        if not (recv.startswith("std::iter::Iterator::zip(") and slot_term in recv and const_term.lstrip("*") in recv):
+            continue
+        pol = None
+        for lf in body.origins(c.args[1], passthrough={}):
+            if lf["kind"] == "agg" and lf["stmt"]["rv"].get("ak") == "closure":
+                cb = facts.bodies.get(lf["stmt"]["rv"]["closure"])
+                for cc in (cb.calls() if cb else []):
+                    if cc.decl in ("std::cmp::PartialEq::ne", "std::cmp::PartialEq::eq"):
+                        srcs = []
+                        for a in cc.args:
+                            for l2 in cb.origins(a):
+                                if l2["kind"] == "arg" and l2["n"] == 2:
+                                    srcs.append(tuple(p for p in l2["proj"] if p != "*"))
+                        if len(set(srcs)) == 2:
+                            pol = "ne" if cc.decl.endswith("::ne") else "eq"
+                for bb in (cb.reachable() if cb else []):
+                    for st in cb.stmts(bb):
+                        if st["k"] == "assign" and st["rv"]["r"] == "bin" and st["rv"]["op"] in ("Ne", "Eq"):
+                            pol = pol or ("ne" if st["rv"]["op"] == "Ne" else "eq")
+        want = "eq" if m.group(1) == "all" else "ne"
+        if pol != want:
+            continue
+        # the "mismatch found" outcome must lead to Err
+        for sb in sorted(body.reachable()):
+            info = switch_info(body, sb)
+            if not info:
+                continue
+            if info["kind"] == "discr" and info["place"]["l"] == c.dest["l"]:
+                some = info["targets"].get(1)
+                if some is not None and (reach_from(body, some) & errs):
+                    return True, "element-wise scan of the whole slot (%s)" % m.group(1)
+            if info["kind"] == "bool" and info["call"] is c:
+                bad = info["true"] if m.group(1) == "any" else info["false"]
+                if reach_from(body, bad) & errs:
+                    return True, "element-wise scan of the whole slot (%s)" % m.group(1)
     return False, "no validating comparison found"
 
 
